@@ -49,7 +49,7 @@ end
 
 def getKind : Sexp → Option Kind
   | .atom "e" => some .elem | .atom "t" => some .text | .atom "c" => some .comment
-  | .atom "o" => some .other | _ => none
+  | .atom "d" => some .doc | .atom "o" => some .other | _ => none
 
 def getAttr : Sexp → Option Attr
   | .list [.str k, .str v] => some (k.toList, v.toList)
